@@ -1,7 +1,259 @@
 import Hs.Model.Vx
-namespace Hs.Drv.C17
+import Hs.Model.CApi
+import Hs.Gen.CApi
+/-
+  Driver glue for C17 (not part of any theorem).
 
-/-- requests `C17 <cmd> ...` (tokens after the property id) -/
-def handle (_ts : List String) : String := "bad-request"
+  `C17 hist <call>*`         a history of C calls from the empty state; every call is
+                             `<extern "C" function name> <arguments in declaration order> [<ext results>]`
+       pointer to Value/Filter : `@<id>` | `@-` (null)          C string : hex | `~` (null) | `!` (not UTF-8)
+       out pointer (`*mut *const Value`), bool : `1` | `0`       f64 : `<bits> <hex of Display>`
+       reply: per call the raw result, ` => <VX>` of the handle the call writes, then the final pool.
+  `C17 inventory <names>`     the harness's call table must be exactly the translated inventory.
+-/
+namespace Hs.Drv.C17
+open Hs Hs.Vx Hs.CApi
+
+/-! plain VX writer (what `vx::show` of the harness prints for a `Value`; independent of the lexeme forms
+`Hs.Vx.wVal` uses for other properties) -/
+mutual
+partial def wPlain : Val → List String
+  | .null => ["N"] | .remove => ["R"] | .marker => ["M"] | .na => ["A"]
+  | .bool b => [if b then "B1" else "B0"]
+  | .num n => ["n", natHex n.v.bits 16, H n.v.txt, HO n.unit]
+  | .str s => ["s", H s] | .uri s => ["u", H s] | .sym s => ["y", H s]
+  | .ref id dis => ["r", H id, HO dis]
+  | .xstr ty v => ["x", H ty, H v]
+  | .date d => ["d", toString d.y, toString d.m, toString d.d, H d.txt]
+  | .time t => ["t", toString t.h, toString t.mi, toString t.s, toString t.ns, H t.txt]
+  | .dateTime t => ["T", toString t.secs, toString t.ns, toString t.off, H t.zone, H t.tzid, H t.txt]
+  | .coord a b => ["c", natHex a.bits 16, H a.txt, natHex b.bits 16, H b.txt]
+  | .list xs => ["[", toString xs.length] ++ (xs.toList.flatMap wPlain)
+  | .dict d => wPlainTags d
+  | .grid md cols rows ver =>
+    ["G"] ++ wPlainOTags md ++ [toString cols.length]
+      ++ (cols.toList.flatMap fun (n, m) => H n :: wPlainOTags m)
+      ++ [toString rows.length] ++ (rows.toList.flatMap wPlainTags) ++ [H ver]
+partial def wPlainTags (d : Tags) : List String :=
+  ["{", toString d.length] ++ (d.toList.flatMap fun (k, v) => H k :: wPlain v)
+partial def wPlainOTags : OTags → List String
+  | .none => ["-"]
+  | .some d => wPlainTags d
+end
+
+def showPlain (v : Val) : String := join (wPlain v)
+
+def pPtr : P Ptr := fun ts => do
+  let (t, ts) ← tok ts
+  match t.toList with
+  | ['@', '-'] => pure (none, ts)
+  | '@' :: rest => do
+    let n ← (String.ofList rest).toNat?
+    pure (some n, ts)
+  | _ => none
+
+/-- string slots `$k` / `$-` -/
+def pSPtr : P Ptr := fun ts => do
+  let (t, ts) ← tok ts
+  match t.toList with
+  | ['$', '-'] => pure (none, ts)
+  | '$' :: rest => do
+    let n ← (String.ofList rest).toNat?
+    pure (some n, ts)
+  | _ => none
+
+/-- filter handles `%k` / `%-` -/
+def pFPtr : P Ptr := fun ts => do
+  let (t, ts) ← tok ts
+  match t.toList with
+  | ['%', '-'] => pure (none, ts)
+  | '%' :: rest => do
+    let n ← (String.ofList rest).toNat?
+    pure (some n, ts)
+  | _ => none
+
+def pCStr : P CStr := fun ts => do
+  let (t, ts) ← tok ts
+  if t = "~" then pure (.null, ts)
+  else if t = "!" then pure (.bad, ts)
+  else do
+    let s ← unH t
+    pure (.ok s, ts)
+
+def pBool : P Bool := fun ts => do
+  let (t, ts) ← tok ts
+  if t = "1" then pure (true, ts) else if t = "0" then pure (false, ts) else none
+
+def pOptVal : P (Option Val) := fun ts =>
+  match ts with
+  | "-" :: rest => some (none, rest)
+  | _ => do
+    let (v, ts) ← pVal ts
+    pure (some v, ts)
+
+def pOptText : P (Option (List Char)) := pHO
+
+def pOp : P COp := fun ts => do
+  let (name, ts) ← tok ts
+  match K0.fnName <$> [K0.init, .marker, .na, .remove, .list, .dict, .grid] |>.idxOf? name with
+  | some i => pure (.mk0 ([K0.init, .marker, .na, .remove, .list, .dict, .grid].getD i .init), ts)
+  | none =>
+  match Kind.all.find? (fun k => k.fnName == name) with
+  | some k => do let (p, ts) ← pPtr ts; pure (.isKind k p, ts)
+  | none =>
+  match Getter.all.find? (fun g => g.fnName == name) with
+  | some g => do let (p, ts) ← pPtr ts; pure (.get g p, ts)
+  | none =>
+  match [K1.str, .ref, .uri, .symbol].find? (fun k => k.fnName == name) with
+  | some k => do let (c, ts) ← pCStr ts; pure (.mk1 k c, ts)
+  | none =>
+  match name with
+  | "haystack_value_make_bool" => do let (b, ts) ← pBool ts; pure (.mkBool b, ts)
+  | "haystack_value_make_number" => do let (x, ts) ← pFlt ts; pure (.mkNum x, ts)
+  | "haystack_value_make_number_with_unit" => do
+    let (x, ts) ← pFlt ts; let (u, ts) ← pCStr ts; let (e, ts) ← pHO ts
+    pure (.mkNumUnit x u e, ts)
+  | "haystack_value_make_coord" => do let (a, ts) ← pFlt ts; let (b, ts) ← pFlt ts; pure (.mkCoord a b, ts)
+  | "haystack_value_make_ref_with_dis" => do let (a, ts) ← pCStr ts; let (b, ts) ← pCStr ts; pure (.mkRefDis a b, ts)
+  | "haystack_value_make_xstr" => do let (a, ts) ← pCStr ts; let (b, ts) ← pCStr ts; pure (.mkXStr a b, ts)
+  | "haystack_value_make_time" => do
+    let (h, ts) ← pNat ts; let (m, ts) ← pNat ts; let (s, ts) ← pNat ts; pure (.mkTime h m s, ts)
+  | "haystack_value_make_time_millis" => do
+    let (h, ts) ← pNat ts; let (m, ts) ← pNat ts; let (s, ts) ← pNat ts; let (ms, ts) ← pNat ts
+    pure (.mkTimeMs h m s ms, ts)
+  | "haystack_value_make_date" => do
+    let (y, ts) ← pInt ts; let (m, ts) ← pNat ts; let (d, ts) ← pNat ts; pure (.mkDate y m d, ts)
+  | "haystack_value_make_utc_datetime" => do
+    let (d, ts) ← pPtr ts; let (t, ts) ← pPtr ts; let (e, ts) ← pVal ts; pure (.mkUtc d t e, ts)
+  | "haystack_value_make_tz_datetime" => do
+    let (d, ts) ← pPtr ts; let (t, ts) ← pPtr ts; let (z, ts) ← pCStr ts; let (e, ts) ← pOptVal ts
+    pure (.mkTz d t z e, ts)
+  | "haystack_value_push_list_entry" => do let (l, ts) ← pPtr ts; let (e, ts) ← pPtr ts; pure (.lpush l e, ts)
+  | "haystack_value_get_list_entry_at" => do
+    let (l, ts) ← pPtr ts; let (i, ts) ← pNat ts; let (r, ts) ← pBool ts; pure (.lget l i r, ts)
+  | "haystack_value_set_list_entry_at" => do
+    let (l, ts) ← pPtr ts; let (i, ts) ← pNat ts; let (e, ts) ← pPtr ts; pure (.lset l i e, ts)
+  | "haystack_value_remove_list_entry_at" => do let (l, ts) ← pPtr ts; let (i, ts) ← pNat ts; pure (.lrem l i, ts)
+  | "haystack_value_insert_dict_entry" => do
+    let (d, ts) ← pPtr ts; let (k, ts) ← pCStr ts; let (e, ts) ← pPtr ts; pure (.dins d k e, ts)
+  | "haystack_value_get_dict_entry" => do
+    let (d, ts) ← pPtr ts; let (k, ts) ← pCStr ts; let (r, ts) ← pBool ts; pure (.dget d k r, ts)
+  | "haystack_value_remove_dict_entry" => do let (d, ts) ← pPtr ts; let (k, ts) ← pCStr ts; pure (.drem d k, ts)
+  | "haystack_value_get_dict_keys" => do let (d, ts) ← pPtr ts; let (r, ts) ← pPtr ts; pure (.dkeys d r, ts)
+  | "haystack_value_make_grid_from_rows" => do let (r, ts) ← pPtr ts; pure (.gfrom r, ts)
+  | "haystack_value_make_grid_from_rows_with_meta" => do
+    let (r, ts) ← pPtr ts; let (m, ts) ← pPtr ts; pure (.gfromMeta r m, ts)
+  | "haystack_value_get_grid_row_at" => do
+    let (g, ts) ← pPtr ts; let (i, ts) ← pNat ts; let (r, ts) ← pPtr ts; pure (.grow g i r, ts)
+  | "haystack_value_get_datetime_date" => do
+    let (p, ts) ← pPtr ts; let (u, ts) ← pBool ts; let (r, ts) ← pPtr ts; let (e, ts) ← pVal ts
+    pure (.dtDate p u r e, ts)
+  | "haystack_value_get_datetime_time" => do
+    let (p, ts) ← pPtr ts; let (u, ts) ← pBool ts; let (r, ts) ← pPtr ts; let (e, ts) ← pVal ts
+    pure (.dtTime p u r e, ts)
+  | "haystack_value_to_zinc_string" => do let (p, ts) ← pPtr ts; let (e, ts) ← pOptText ts; pure (.toZinc p e, ts)
+  | "haystack_value_from_zinc_string" => do let (c, ts) ← pCStr ts; let (e, ts) ← pOptVal ts; pure (.fromZinc c e, ts)
+  | "haystack_value_to_json_string" => do let (p, ts) ← pPtr ts; let (e, ts) ← pOptText ts; pure (.toJson p e, ts)
+  | "haystack_value_from_json_string" => do let (c, ts) ← pCStr ts; let (e, ts) ← pOptVal ts; pure (.fromJson c e, ts)
+  | "haystack_filter_parse" => do let (c, ts) ← pCStr ts; let (e, ts) ← pBool ts; pure (.fparse c e, ts)
+  | "haystack_filter_match_dict" => do
+    let (f, ts) ← pFPtr ts; let (d, ts) ← pPtr ts; let (e, ts) ← pBool ts; pure (.fmatch f d e, ts)
+  | "haystack_filter_first_match_in_grid" => do
+    let (f, ts) ← pFPtr ts; let (g, ts) ← pPtr ts; let (r, ts) ← pPtr ts; let (e, ts) ← pOptVal ts
+    pure (.ffirst f g r e, ts)
+  | "haystack_filter_match_all_grid" => do
+    let (f, ts) ← pFPtr ts; let (g, ts) ← pPtr ts; let (r, ts) ← pPtr ts; let (e, ts) ← pVal ts
+    pure (.fall f g r e, ts)
+  | "haystack_filter_destroy" => do let (f, ts) ← pFPtr ts; pure (.fdestroy f, ts)
+  | "last_error_message" => pure (.takeErr, ts)
+  | "haystack_value_destroy" => do let (p, ts) ← pPtr ts; pure (.destroy p, ts)
+  | "haystack_string_destroy" => do let (p, ts) ← pSPtr ts; pure (.sdestroy p, ts)
+  | _ => none
+
+partial def pOps (ts : List String) (acc : List COp) : Option (List COp) :=
+  match ts with
+  | [] => some acc.reverse
+  | _ =>
+    match pOp ts with
+    | some (op, rest) => pOps rest (op :: acc)
+    | none => none
+
+def showSentinel : Sentinel → String
+  | .none => "v"
+  | .null => "~"
+  | .false => "b0"
+  | .usizeMax => "n18446744073709551615"
+  | .u32Max => "n4294967295"
+  | .nan => "x7ff8000000000000:" ++ H "NaN".toList
+  | .err => "r-1"
+
+def showOk : COk → String
+  | .unit => "v"
+  | .handle k => s!"h{k}"
+  | .filter k => s!"f{k}"
+  | .bool b => if b then "b1" else "b0"
+  | .usize n => s!"n{n}"
+  | .u32 n => s!"n{n}"
+  | .f64 x => "x" ++ natHex x.bits 16 ++ ":" ++ H x.txt
+  | .result b => if b then "r1" else "r0"
+  | .cstr s => "s" ++ H s
+  | .noStr => "~"
+  | .errMsg => "e"
+  | .borrow v => "r1 & " ++ showPlain v
+
+def showRes : CRes → String
+  | .ok r => showOk r
+  | .fail s => showSentinel s
+  | .abort => "ABORT"
+
+/-- the handle a call writes to (shown after the call) -/
+def target : COp → Ptr
+  | .lpush l _ | .lset l _ _ | .lrem l _ => l
+  | .dins d _ _ | .drem d _ => d
+  | .dkeys _ r | .grow _ _ r | .dtDate _ _ r _ | .dtTime _ _ r _ | .ffirst _ _ r _ | .fall _ _ r _ => r
+  | _ => none
+
+def insertSorted {α} (k : Nat) (x : α) : List (Nat × α) → List (Nat × α)
+  | [] => [(k, x)]
+  | (k', y) :: t => if k ≤ k' then (k, x) :: (k', y) :: t else (k', y) :: insertSorted k x t
+
+def sortPool {α} (p : List (Nat × α)) : List (Nat × α) :=
+  p.foldl (fun acc (k, v) => insertSorted k v acc) []
+
+def runShow (s : CState) : List COp → List String → CState × List String
+  | [], acc => (s, acc.reverse)
+  | op :: ops, acc =>
+    let (s', r) := cstep s op
+    let line := showRes r ++
+      (match target op with
+       | some k => match pget s'.pool k with
+         | some v => " => " ++ showPlain v
+         | none => ""
+       | none => "")
+    runShow s' ops (line :: acc)
+
+def histReq (ts : List String) : String :=
+  match pOps ts [] with
+  | none => "bad-request"
+  | some ops =>
+    let (s, lines) := runShow CState.init ops []
+    let pool := (sortPool s.pool).map fun (k, v) => s!"{k}={showPlain v}"
+    let fl := (sortPool s.fpool).map fun (k, _) => s!"{k}"
+    " | ".intercalate lines ++ " || " ++ " , ".intercalate pool ++ " || f:" ++ ",".intercalate fl
+      ++ " || e" ++ (if s.lastErr.isSome then "1" else "0")
+
+/-- the harness's table of callable functions against the translated inventory -/
+def inventoryReq (ts : List String) : String :=
+  let inv := Gen.CApi.fns.map (·.name)
+  let missing := inv.filter (fun n => !ts.contains n)
+  let extra := ts.filter (fun n => !inv.contains n)
+  if missing.isEmpty && extra.isEmpty then s!"ok {inv.length}"
+  else "missing:" ++ ",".intercalate missing ++ " extra:" ++ ",".intercalate extra
+
+def handle (ts : List String) : String :=
+  match ts with
+  | "hist" :: rest => histReq rest
+  | "inventory" :: rest => inventoryReq rest
+  | _ => "bad-request"
 
 end Hs.Drv.C17
